@@ -332,6 +332,54 @@ class RecDist:
 
 
 # ---------------------------------------------------------------------------------------------
+# external operations: elfi.tools.external_operation runs a shell command per row; the simulator
+# owns that seam (elfi.model.tools.subprocess) and answers `echo ...` in-process
+
+
+class FakeSubprocess:
+    """Stand-in for the subprocess module as used by elfi.model.tools (run + PIPE)."""
+    PIPE = -1
+
+    def __init__(self):
+        self.calls = 0
+
+    def run(self, command, **kwargs):
+        self.calls += 1
+        if not command.startswith('echo '):
+            raise RuntimeError('FakeSubprocess only answers echo, got %r' % command[:40])
+        import types
+        return types.SimpleNamespace(stdout=(command[5:].strip() + '\n').encode(), returncode=0,
+                                     args=command)
+
+
+FAKE_SUBPROCESS = FakeSubprocess()
+EXT_LOG = []
+
+
+def ext_record(*inputs, **kwinputs):
+    """prepare_inputs hook of an external operation: what the run was handed."""
+    rs = kwinputs.get('random_state')
+    EXT_LOG.append({'index_in_batch': kwinputs.get('index_in_batch'),
+                    'master': int(rs.get_state()[1][0]) if rs is not None else None,
+                    'seed': kwinputs.get('seed'), 'batch_index': kwinputs.get('batch_index')})
+    return inputs, kwinputs
+
+
+def make_noisy_result(ndraws):
+    from functools import partial
+    return partial(_noisy_result, ndraws)
+
+
+def _noisy_result(ndraws, stdout, *inputs, **kwinputs):
+    """process_result that adds simulator noise drawn from the batch generator."""
+    arr = np.fromstring(stdout, sep=' ')
+    rs = kwinputs.get('random_state')
+    if rs is not None and ndraws:
+        arr = np.concatenate([arr, [rs.normal(size=ndraws).sum()]])
+    return arr
+
+
+# ---------------------------------------------------------------------------------------------
 # sub-seed reference (independent of elfi.utils.get_sub_seed)
 
 
@@ -393,7 +441,7 @@ def gen_prior(tape, name, earlier, positive=(), latent=(), far=False):
 
 
 def gen_inference_spec(tape, disc_kinds=('disc', 'dist'), max_priors=3, extra_shapes=False,
-                       ties=True, smooth=None, all_rec=False, latent=False, far=False):
+                       ties=True, smooth=None, all_rec=False, latent=False, far=False, ext=False):
     """Priors -> recording simulator -> summaries -> discrepancy (+ optional extra outputs).
 
     latent=True: sometimes a stochastic non-parameter node (elfi.RandomVariable) sits above a
@@ -498,6 +546,13 @@ def gen_inference_spec(tape, disc_kinds=('disc', 'dist'), max_priors=3, extra_sh
                                   'salt': 0.7 + j,
                                   'dtype': tape.choice('extra_dtype', [None, None, 'int', 'f4'])}})
             extras.append('x%d' % j)
+    if ext and tape.chance('external_operation', 1, 5):
+        # an operation that runs an external command per row (vectorize + external_operation,
+        # the documented way to wrap a binary): its output carries the {seed} ELFI derives for
+        # the run from the batch generator, with or without run metadata
+        nodes.append({'name': 'e0', 'kind': 'ext', 'parents': [pnames[0]],
+                      'uses_meta': tape.chance('ext_uses_meta', 2, 3)})
+        extras.append('e0')
     for nd in nodes:
         if nd.get('cfg', {}).get('shape') and tape.chance('layout', 1, 3):
             nd['cfg']['layout'] = tape.choice('layout_kind', ['F', 'T'])
@@ -522,6 +577,8 @@ def describe_spec(spec):
             if 'metric' in n:
                 d['metric'] = n['metric']
                 d['kw'] = sorted(n['kw'])
+            if n['kind'] == 'ext':
+                d['uses_meta'] = bool(n.get('uses_meta'))
         out.append(d)
     return out
 
@@ -554,6 +611,12 @@ def build_model(elfi, spec, order=None, tag=None):
             continue
         if kind == 'adist':
             refs[name] = elfi.AdaptiveDistance(*parents, model=m, name=name)
+            continue
+        if kind == 'ext':
+            op = elfi.tools.vectorize(elfi.tools.external_operation('echo {0} {seed}'))
+            refs[name] = elfi.Operation(op, *parents, model=m, name=name)
+            if n.get('uses_meta'):
+                refs[name].uses_meta = True
             continue
         op = RecOp('%s/%s' % (tag, name), n['cfg'])
         if kind == 'sim':
